@@ -22,12 +22,12 @@ META = {
     "design_ref": "DESIGN.md section 4 C03",
 }
 
-NS = [1, 2, 3, 4, 7, 100, 0]
+NS = [1, 2, 3, 4, 7, 100, 0, -3]
 SRC = os.path.join(V.VERIF, "harness/C03/impl.cc")
 OPNAME = {"B": "beginResize", "A": "add", "D": "markAsDeleted", "E": "endResize", "R": "renumberLocal", "X": "exists", "T": "at",
           "G": "operator[]", "S": "size", "Q": "seqNo", "M": "state", "I": "iterate", "V": "reverse", "W": "reverse-sized",
           "a": "add(global)", "U": "setLocal", "Z": "set-equality", "K": "pair-comparison", "Y": "lookup-operator[]", "J": "lookup-iterate",
-          "C": "copy"}
+          "C": "copy-move-swap", "r": "add(aliasing)", "z": "set-equality-other-global-type"}
 INT_MIN, INT_MAX = -2**31, 2**31 - 1
 
 
@@ -82,6 +82,15 @@ class Sim:
             if self.set and self.set[-1][0] >= INT_MAX - 1: ws.remove(4)
             if self.set and self.set[-1][2] >= 8 and 2 in ws: ws.remove(2)
             o.append("Z:0"); o.append("Z:%d" % rng.choice(ws))
+            if self.variant != "S" and all(INT_MIN <= p[0] < INT_MAX for p in self.set):   # the same against an instance with another GLOBAL index type (int <-> long long)
+                o.append("z:%d" % rng.choice(ws))
+        o.append(rng.choice(["Z:7", "Z:8"]))             # aliasing: the set against itself / against a copy sharing its chunks
+
+    def readd(self, k):
+        """add(x.global(), x.local()) with x = begin()[k]: references into the set's own storage"""
+        p = self.set[k]
+        self.ops.append("r:%d" % k)
+        if self.rz: self.new.append([p[0], p[1], p[2], p[3], False])
 
     def delete(self, k):
         self.ops.append("D:%d" % k)
@@ -166,7 +175,7 @@ def gen_exhaustive(ctx, cases):
                         rr = _r.Random(cnt); s.extras(rr)
                         if s.set and cnt % 6 == 0:
                             s.setlocal(rr.choice(s.set)[0], rr.randrange(9)); s.probes()
-                    cases.append(s.line(NS[cnt % 7], 1))
+                    cases.append(s.line(NS[cnt % 8], 1))
                     cnt += 1
     return cnt
 
@@ -185,6 +194,9 @@ def gen_random(ctx, rng, chk, inject):
     nattr = rng.choice([1, 1, 2, 3])
     if rng.random() < 0.2:
         s.variant = "L"; nattr = 1                       # long long globals, Dune::LocalIndex, generic comparator
+        if rng.random() < 0.3: pool = pool + [-2**61, 2**61, 2**40 + 1, -2**33]
+    elif rng.random() < 0.12:
+        s.variant = "S"                                  # class-type global index (comparison operators only), ParallelLocalIndex<int>
     distinct_globals = rng.random() < 0.6
     rounds = rng.randrange(1, 7)
     small = rng.random() < 0.35                          # keep the set near sizes 0..3
@@ -225,6 +237,9 @@ def gen_random(ctx, rng, chk, inject):
                     if (g, a) in s.keys_in_batch(): continue
                     if distinct_globals and (any(p[0] == g for p in s.new) or any(p[0] == g and not p[4] for p in s.set)): continue
                     loc = rng.randrange(0, 60) if rng.random() < 0.3 else None
+                    if not s.nd and s.set and rng.random() < 0.07:
+                        k = rng.randrange(len(s.set)); q = s.set[k]
+                        if not q[4] and (q[0], q[2]) not in s.keys_in_batch(): s.readd(k); break
                     if a == 0 and rng.random() < 0.12: s.add_default(g)
                     else: s.add(g, a, loc=loc, pub=rng.randrange(2))
                     break
@@ -243,7 +258,33 @@ def gen_random(ctx, rng, chk, inject):
             s.setlocal(g, rng.randrange(0, 70)); s.probes(rng)
         if rng.random() < 0.4:
             s.renumber(); s.probes(rng)
-    return s.line(rng.choice(NS), chk)
+    return s.line(rng.choice([2, 100]) if s.variant == "S" else rng.choice(NS), chk)
+
+
+def gen_boundary(ctx, cases):
+    """directed: set sizes exactly at the chunk boundaries (N-1, N, N+1, 2N, 2N+1), then a phase that deletes a prefix reaching across
+    a chunk boundary while adding below, inside and above, then everything but the last pair deleted"""
+    import random as _r
+    cnt = 0
+    for n in NS:
+        cs = max(n, 1)
+        for variant in ("", "L") + (("S",) if n in (2, 100) else ()):
+            for size in sorted({max(cs - 1, 0), cs, cs + 1, 2 * cs, 2 * cs + 1}):
+                rr = _r.Random(1000 * cs + size)
+                s = Sim(); s.variant = variant
+                s.begin()
+                for i in range(size): s.add(10 * i, 0 if variant == "L" else i % 2)
+                s.end(); s.probes(rr); s.extras(rr)
+                s.begin()
+                for k in range(min(size, cs + 1)): s.delete(k)
+                for g in (-5, 5, 10 * size + 5): s.add(g, 0)
+                if size and not s.set[size - 1][4]: s.readd(size - 1)
+                s.end(); s.probes(rr); s.extras(rr)
+                s.begin()
+                for k in range(len(s.set) - 1): s.delete(k)
+                s.end(); s.probes(rr); s.renumber(); s.probes(rr)
+                cases.append(s.line(n, 1 if cnt % 4 else 0)); cnt += 1
+    return cnt
 
 
 def gen(ctx):
@@ -253,6 +294,7 @@ def gen(ctx):
         cases += [l.strip() for l in open(cp) if l.strip() and not l.startswith("#")]
     ncorp = len(cases)
     nex = gen_exhaustive(ctx, cases)
+    nbd = gen_boundary(ctx, cases)
     rng = ctx.rng("gen")
     nr = 2500 if ctx.quick else 40000
     for i in range(nr):
@@ -261,7 +303,7 @@ def gen(ctx):
         cases.append(gen_random(ctx, rng, 0, inject=False))       # NDEBUG build, well-formed histories
     for i in range(nr // 10):
         cases.append(gen_random(ctx, rng, 0, inject=True))        # NDEBUG build, wrong-state calls: model only
-    return cases, {"corpus": ncorp, "exhaustive": nex, "random_checked": nr, "random_ndebug": nr // 3, "random_ndebug_wrongstate": nr // 10}
+    return cases, {"corpus": ncorp, "exhaustive": nex, "chunk_boundary_directed": nbd, "random_checked": nr, "random_ndebug": nr // 3, "random_ndebug_wrongstate": nr // 10}
 
 
 # ----------------------------------------------------------------------------- judging
@@ -487,7 +529,7 @@ def run_(ctx):
                                           "oracle": dict(judge(small, sio[0], sp)).get(sig), "unshrunk_case": c})
                 ctx.viol[k] = (s_, r2, f_); break
     # sanitizer variant on a subsample of the checked cases
-    sub = [i for i, c in enumerate(cases) if c.split()[1] == "1" and c.split()[0].rstrip("L") in ("1", "3")][::(3 if ctx.quick else 2)]
+    sub = [i for i, c in enumerate(cases) if c.split()[1] == "1" and c.split()[0] in ("1", "3", "1L", "3L")][::(3 if ctx.quick else 2)]
     so_ = V.run_cases(ctx, [exes["impl_san"]], [cases[i] for i in sub], tag="san", timeout=120 if ctx.quick else 900)
     for j, i in enumerate(sub):
         if so_[j] != io[i]:
